@@ -4,10 +4,12 @@
 From Coq Require Import String.
 From Cedar Require Export Run.
 From Cedar Require Export ConformRun.
+From Cedar Require Export TExprRun.
 
 Definition dispatchers : list (string -> list sexp -> option sexp) :=
   [ run_core
   ; run_conform
+  ; run_texpr
   ].
 
 Fixpoint dispatch (ds : list (string -> list sexp -> option sexp)) (cmd : string) (args : list sexp) : sexp :=
